@@ -187,7 +187,7 @@ theorem replay_rejected (P : Params) (addrOf : KeyId → Option Addr) (L : Ledge
     rw [(hh x hx).1] at hidx; contradiction
 
 def exAddrOf : KeyId → Option Addr := fun k => some k
-def exLedger : Ledger := { Ledger.empty with vals := fun a => if a == [1] then some ⟨1000, [1, 2]⟩ else none }
+def exLedger : Ledger := { Ledger.empty with vals := fun a => if a == [1] then some ⟨1000, [1, 2], false⟩ else none }
 def exP : Params := { committeeScoped := true, maxSlash := 15, dsPercent := 10 }
 
 /-- non-vacuity: the first slash for (validator 1, height 3) happens (1000 → 900), the replay in the next block is refused -/
@@ -333,6 +333,28 @@ theorem tracker_exact (P : Params) (hs : P.committeeScoped = true) (hds : P.dsPe
     ((runBlock P addrOf L ops).tracker a c).toNat = (runBlock P addrOf L ops).charged a c :=
   ((runOps_cap P hs hds addrOf ops hb (newBlock L) (newBlock_cap P L)) a c).1
 
+/-- the tracker is written before the first state change and before every return other than the two "nothing
+happens" returns of the protocol-v2 block: no early return of `SlashValidator` (validator deleted, validator
+force-unstaked because the slash left it below the minimum stake, store errors) can leave a stake cut that the
+tracker does not know about. Pinned from the source on every run; `applySlash` of the model relies on it. -/
+theorem tracker_updated_before_early_returns :
+    Gen.Evidence.slashValidator[Gen.Evidence.slashValidator_addSlashLine]? =
+      some "  s.slashTracker.AddSlash(validator.Address, chainId, percent)" ∧
+    Gen.Evidence.slashValidator[Gen.Evidence.slashValidator_firstChangeLine]? =
+      some "if err = s.SubFromTotalSupply(slashAmount); err != nil {" ∧
+    Gen.Evidence.slashValidator_addSlashLine < Gen.Evidence.slashValidator_firstChangeLine ∧
+    Gen.Evidence.slashValidator_returnLines.filter (· < Gen.Evidence.slashValidator_addSlashLine) = [3, 7] ∧
+    Gen.Evidence.slashValidator[3]? = some "    return nil" ∧ Gen.Evidence.slashValidator[7]? = some "    return nil" :=
+  ⟨rfl, rfl, by decide, rfl, rfl, rfl⟩
+
+def exPmin : Params := { committeeScoped := true, maxSlash := 15, dsPercent := 10, minStake := 950 }
+
+/-- non-vacuity of the force-unstake branch: stake 1000, minimum 950, three double-sign heights in one entry:
+1000 → 900 (below the minimum: force-unstaked, still a member, tracker 10) → 855 (cut to the remaining 5 %,
+ejected) → third slash refused; 15 % charged in total -/
+example : (runBlock exPmin exAddrOf exLedger [.doubleSign 1 [some ⟨[1], [1, 2, 3]⟩]]).vals [1] = some ⟨855, [2], true⟩ ∧
+    (runBlock exPmin exAddrOf exLedger [.doubleSign 1 [some ⟨[1], [1, 2, 3]⟩]]).charged [1] 1 = 15 := by decide +kernel
+
 def exP1 : Params := { committeeScoped := false, maxSlash := 15, dsPercent := 10 }
 
 /-- **the full statement is false under protocol version 1**: two 10 % slashes by committee 1 in one block charge 20 % > 15 %
@@ -346,7 +368,7 @@ example : stakeOf (runBlock exP1 exAddrOf exLedger [.slash 1 10 [[1]], .slash 1 
 /-- non-vacuity under version 2: the second slash is cut to the remaining 5 % and the validator leaves the committee -/
 example : stakeOf (runBlock exP exAddrOf exLedger [.slash 1 10 [[1]], .slash 1 10 [[1]]]) [1] = 855 ∧
     (runBlock exP exAddrOf exLedger [.slash 1 10 [[1]], .slash 1 10 [[1]]]).charged [1] 1 = 15 ∧
-    (runBlock exP exAddrOf exLedger [.slash 1 10 [[1]], .slash 1 10 [[1]]]).vals [1] = some ⟨855, [2]⟩ := by decide +kernel
+    (runBlock exP exAddrOf exLedger [.slash 1 10 [[1]], .slash 1 10 [[1]]]).vals [1] = some ⟨855, [2], false⟩ := by decide +kernel
 
 /-- **the stake bound, exactly**: under protocol version ≥ 2 with cap `M ≤ 100`, if within one block committee `c`
 slashes validator `a` any number `n` of times (any percentages), then
@@ -564,6 +586,71 @@ theorem slashValidator_scoped_shape : Gen.Evidence.slashValidatorScoped = [
   "  }",
   "  s.slashTracker.AddSlash(validator.Address, chainId, percent)",
   "}"] := rfl
+
+theorem slashValidator_shape : Gen.Evidence.slashValidator = [
+  "newCommittees := slices.Clone(validator.Committees)",
+  "if committeeScoped := s.IsFeatureEnabled(2); committeeScoped {",
+  "  if !slices.Contains(validator.Committees, chainId) {",
+  "    return nil",
+  "  }",
+  "  slashTotal := s.slashTracker.GetTotalSlashPercent(validator.Address, chainId)",
+  "  if slashTotal >= p.MaxSlashPerCommittee {",
+  "    return nil",
+  "  }",
+  "  if slashTotal + percent >= p.MaxSlashPerCommittee {",
+  "    percent = p.MaxSlashPerCommittee - slashTotal",
+  "    for i, id := range newCommittees {",
+  "      if id == chainId {",
+  "        newCommittees = append(newCommittees[:i], newCommittees[i + 1:]...)",
+  "        break",
+  "      }",
+  "    }",
+  "  }",
+  "  s.slashTracker.AddSlash(validator.Address, chainId, percent)",
+  "}",
+  "addr := crypto.NewAddressFromBytes(validator.Address)",
+  "var stakeAfterSlash uint64",
+  "switch  { case percent >= 100 || validator.StakedAmount == 0: stakeAfterSlash = 0; case percent == 0: stakeAfterSlash = validator.StakedAmount; default: stakeAfterSlash = lib.SafeMulDiv(validator.StakedAmount, 100 - percent, 100) }",
+  "slashAmount := validator.StakedAmount - stakeAfterSlash",
+  "if err = s.SubFromTotalSupply(slashAmount); err != nil {",
+  "  return err",
+  "}",
+  "if stakeAfterSlash == 0 {",
+  "  if err = s.EventSlash(validator.Address, slashAmount); err != nil {",
+  "    return err",
+  "  }",
+  "  if validator.UnstakingHeight != 0 {",
+  "    if err = s.Delete(KeyForUnstaking(validator.UnstakingHeight, addr)); err != nil {",
+  "      return err",
+  "    }",
+  "  }",
+  "  if validator.MaxPausedHeight != 0 {",
+  "    if err = s.Delete(KeyForPaused(validator.MaxPausedHeight, addr)); err != nil {",
+  "      return err",
+  "    }",
+  "  }",
+  "  return s.DeleteValidator(validator)",
+  "}",
+  "if err = s.SubFromStakedSupply(slashAmount); err != nil {",
+  "  return err",
+  "}",
+  "if validator.Delegate {",
+  "  if err = s.SubFromDelegateSupply(slashAmount); err != nil {",
+  "    return err",
+  "  }",
+  "  if err = s.UpdateDelegations(addr, validator, stakeAfterSlash, newCommittees); err != nil {",
+  "    return err",
+  "  }",
+  "} else if err = s.UpdateCommittees(addr, validator, stakeAfterSlash, newCommittees); err != nil { return err }",
+  "validator.Committees = newCommittees",
+  "validator.StakedAmount = stakeAfterSlash",
+  "if isSet, e := s.SetValidatorUnstakingIfBelowMinimum(validator, p); isSet || e != nil {",
+  "  return e",
+  "}",
+  "if err = s.SetValidator(validator); err != nil {",
+  "  return err",
+  "}",
+  "return s.EventSlash(validator.Address, slashAmount)"] := rfl
 
 theorem ledger_helpers_shape :
     Gen.Evidence.slashValidators = [
